@@ -178,6 +178,7 @@ Qed.
 (* create_file(path, flags, mode): the O_CREAT open; the descriptor returned is open on the very
    object that is now (or already was) under that name *)
 Theorem create_file_exact t root path t1 dir name o flags mode :
+  has flags O_PATH = false ->
   parent_ok t root path t1 dir name o -> has_nul name = false ->
   let fl := N.lor (N.lor (N.lor (N.lor flags CREATE_FILE_FORCED) OPENAT_NOFOLLOW_FORCED) OPENAT_FORCED) O_LARGEFILE in
   drun (st_of t) (root_create_file fz o2 pfuel gh ps rs root path flags mode) =
@@ -190,7 +191,7 @@ Theorem create_file_exact t root path t1 dir name o flags mode :
   | EUnit _ => DNoFuel
   end.
 Proof.
-  intros Hp Hnn fl. unfold root_create_file. rewrite (drun_parent _ _ _ _ _ _ _ _ Hp). cbn beta iota.
+  intros Hop Hp Hnn fl. unfold root_create_file. rewrite Hop, andb_false_r. rewrite (drun_parent _ _ _ _ _ _ _ _ Hp). cbn beta iota.
   destruct Hp as (_ & Hd & Hlt & _).
   unfold w_openat, w_openat_follow, rustix_path. rewrite (tget_valid _ _ _ Hd), Hnn. cbn [negb].
   fold fl.
@@ -206,6 +207,12 @@ Proof.
   - cbn [as_fd]. set (t2 := reloc (NPB s) (NPB s') t1). pose proof (fresh_ge3 t2) as H3.
     destruct (Z.leb_spec 0 (fresh t2)); [|lia]. cbn [Dyn.drun]. rewrite drun_bind. reflexivity.
 Qed.
+
+(* create_file with O_PATH: refused before any system call (with O_PATH the kernel drops O_CREAT and would
+   open the unresolved final component -- "..", for one -- as it is: F-S) *)
+Theorem create_file_opath_refused root path flags mode :
+  has flags O_PATH = true -> root_create_file fz o2 pfuel gh ps rs root path flags mode = Ret (Err InvalidArgument).
+Proof. intro H. unfold root_create_file. rewrite H. reflexivity. Qed.
 
 (* rename(src, dst, flags) *)
 Theorem rename_exact t root src dst t1 d1 sname o1 t2 d2 dname o3 fl :
